@@ -388,6 +388,10 @@ def run(ctx):
                     found_violation |= ctx.violation("C03:didjwk:private-jwk-%s-not-refused" % jid, line[:200], "didjwk-private.jsonl", ops[i])
                 if jid in STORE_KEY_JWKS and "dpop-private=true" not in line:
                     found_violation |= ctx.violation("C03:dpop:private-jwk-%s-not-refused" % jid, line[:200], "dpop-private.jsonl", ops[i])
+            if "KEY-MATERIAL-OUTSIDE-KEY-DIR" in line:
+                found_violation |= ctx.violation("C03:ks:%s-left-private-key-file-outside-key-dir" % k,
+                                                 f"{k} (key name {op.get('keyName')!r}) left a PEM private key in the system temp dir (TMPDIR is a watched directory): {line[:200]}",
+                                                 "ks-key-outside-store.jsonl", "\n".join(ops[seq_start:i + 1]))
             if "DECOY" in line:
                 found_violation |= ctx.violation("C03:ks:%s-touched-key-file-outside-key-dir" % k,
                                                  f"{k} for kid {op.get('kid')!r} reached the decoy key file outside the key directory: {line[:160]}",
